@@ -15,7 +15,10 @@ pub const BLOCK_SIZE: usize = 1 << BLOCK_SHIFT;
 // block mask
 pub const BLOCK_MASK: usize = BLOCK_SIZE - 1;
 // block shift
+#[cfg(not(kani))]
 pub const BLOCK_SHIFT: usize = 5;
+#[cfg(kani)]
+pub const BLOCK_SHIFT: usize = 2;
 
 /// A slot in a block.
 struct Slot<T> {
